@@ -426,6 +426,8 @@ pub fn is_brackets_string(expression: &Expression) -> bool {
         Expression::TypeAssertion { expression, .. } => is_brackets_string(expression),
         // Redundant parentheses around the string are removed later on: `t[([[x]])]` must not become `t[[[x]]]`
         Expression::Parentheses { expression, .. } => is_brackets_string(expression),
+        // The expression may merely start with the string: `t[ [[x]] .. y ]`
+        Expression::BinaryOperator { lhs, .. } => is_brackets_string(lhs),
         _ => false,
     }
 }
